@@ -43,13 +43,15 @@ SOURCES = {
     "ac24": ("ac", {"V": 2, "w": "24005/1000", "phi": "a34"}),
     # ... and a sinusoid inside the resolution of the third harmonic of the 0.1 rad/s sawtooth (one merged line)
     "ac03005": ("ac", {"V": -1, "w": "3005/10000", "phi": "0"}),
+    # ... and one 0.0006 rad/s below that harmonic: still one merged line, although 0.2994 and 0.3 round to different multiples of the resolution
+    "ac02994": ("ac", {"V": "3/2", "w": "2994/10000", "phi": "a34"}),
 }
 # high-frequency family: two sinusoids 0.05 rad/s apart at 1e4 rad/s (distinct lines: the resolution is absolute, not relative),
-# a third one inside the resolution of the first (merged line) and a rectangle whose 5th harmonic is 0.002 rad/s below the first
+# a third one 0.0006 rad/s above the first (merged line, other rounding cell) and a rectangle whose 5th harmonic is 0.002 rad/s below the first
 HF_SOURCES = {
     "hf1": ("ac", {"V": 2, "w": 10000, "phi": "a34"}),
     "hf2": ("ac", {"V": "3/2", "w": "200001/20", "phi": "0"}),
-    "hf3": ("ac", {"V": -1, "w": "100000005/10000", "phi": "pi/2", "R": 2}),
+    "hf3": ("ac", {"V": -1, "w": "100000006/10000", "phi": "pi/2", "R": 2}),
     "hfrect": ("periodic", {"wavetype": "rect", "V": 1, "w": "19999996/10000", "phi": "0"}),
 }
 HF_BASE = {"RChf": [["resistor", "R1", ["1", "2"], {"R": 2}], ["capacitor", "C1", ["2", "0"], {"C": "1/20000"}], ["resistor", "R2", ["2", "0"], {"R": 3}]]}
@@ -100,6 +102,8 @@ def shards(tier):
     for base in BASES:
         for r in sizes:
             for mix in itertools.combinations(names, r):
+                if "ac02994" in mix and "ac03005" in mix:
+                    continue       # a chain 0.2994 / 0.3 / 0.3005 of pairwise-close frequencies has no defined set of distinct lines
                 for fl in ("V", "I"):
                     out.append(("mix%d" % r, (base, mix, fl, tier)))
     hf = list(HF_SOURCES) + ["dc", "ac1"]
